@@ -14,6 +14,11 @@ per-function expectation is used: the two results only have to denote the same t
  rule 2 (no silent drop) for templates the catalogue tags "same-dimension" (selection, reshaping, sorting, rounding,
                        interpolation, statistics of location and spread) the result must be a unyt object whose dimension
                        vector equals the one of a unit-carrying input.
+
+Unit families: plain (one slot or both re-expressed), 'mixed' (operands of one slot written in two units; plain first powers and
+compound: fractional powers / derived-unit aliases), 'partial' (slots A and B commensurable, written in two units that cancel
+only partly when multiplied/divided: coefficient from the part that cancels x scaled dimensionless residue from the rest),
+'stale' (two snapshots of one registry entry).
 """
 import math
 import warnings
@@ -34,7 +39,10 @@ RULE = ("one evaluation = one catalogue call (function / ndarray method / operat
         "operands of mutators) by rule 1 (same physical quantity / same bare numbers) and, for same-dimension templates, by "
         "rule 2 (result is a unyt object commensurable with an input). In the 'mixed' and 'stale' unit families the base run writes the "
         "operands of one slot in two different units (another symbol / the same symbol and registry object built before and after an edit "
-        "of the registry entry) and the other run writes all of them in one fixed unit of an untouched registry. distinct = (template id, shape class, dtype, unit family, "
+        "of the registry entry) and the other run writes all of them in one fixed unit of an untouched registry; the compound mixed families do the same with "
+        "fractional-power (L**1.5, L**2.5) and derived-alias (E*L vs F*L**2) slot units, and in the 'partial' families the two slots A and B are commensurable "
+        "and written in two such units in the base run, in one common unit in the other run, so that every product/quotient of an A with a B operand meets units "
+        "that cancel only partly (driven for calls in which both slots carry units). distinct = (template id, shape class, dtype, unit family, "
         "rule); cases both runs refuse, and cases NumPy itself refuses on bare data, are counted but are no cells")
 ASSUMPTIONS = (
     "trusted base: NumPy on bare data decides only whether a generated call is valid; vf.ref.uexpr + the dyadic atom table / vf.ref.defs give scale and dimension vector of the *printed* unit of a result (unyt's base_value and unyt's .to() are not used)",
@@ -52,9 +60,13 @@ ASSUMPTIONS = (
     "a refusal (exception) in both runs is allowed by the property; a refusal in exactly one run is a covariance violation; results of functions unyt declares unsupported are judged like any other when they return (keyed without the leaf index)",
     "slot '1' operands (must be dimensionless by the template) are never rescaled; offset and logarithmic units are excluded (DESIGN 1.10); besides random data every template is driven with the all-zero input class (zero is the same quantity in every unit; unyt special-cases it)",
     "stale families (history x combination): a Unit object is a snapshot of the registry entry it was built from, so after UnitRegistry.modify / remove+add two operands can carry the same symbol in the same registry object with different sizes; what such an operand denotes is its numbers x the scale of the Unit object it carries, not the current meaning of the printed symbol. The harness builds both snapshots itself, checks on the objects that they have the sizes its own table says (old: TABLE, new: 2**(12k)) and rescales the numbers of the operand written in the other snapshot exactly; the reference run writes every operand in one unit of an untouched registry. A unit-carrying result leaf of the stale run is read as numbers x the base_value stored in the Unit object attached to it (an attribute, no conversion routine is called; the printed symbol is ambiguous there), its dimension still by vf.ref from the printed expression; leaves of the reference run are read by vf.ref only. A refusal of the stale combination is accepted (counted, listed per function) like a refusal of mixed units; quotients of two snapshots print 'dimensionless' but carry the ratio as scale and are judged by that scale",
-    "the binary ufuncs (add ... remainder, comparisons, arctan2; multiply/divide as controls) and the compositions reduce-then-combine are C07's own templates (vf/gen/c07_templates.py): fmod/remainder get divisors >= 1, comparisons small integers so that ties occur",
+    "units that cancel only partly (compound mixed and partial families): the dyadic pool gets derived-unit aliases of its own (Ea, Eb energy; Fa, Fb force; size 2**(12k), read by the check's own resolver) and slot units L**1.5, L**2.5, E*L against F*L**2 / F*L*L, ordinary analogues m**1.5 against cm**1.5, m**2.5 against cm**2.5, J*km against N*cm*m (ratios 1000, 1e5: exact on quarter-valued data; km**1.5 against m**1.5 has an irrational ratio and cannot be re-expressed exactly by the harness); what the printed residue unit of a result (sqrt(Lb)/sqrt(La), Eb/(Fa*La)) means is read by vf.ref.uexpr like any other unit",
+    "partial families: the base run is a mixed-unit call (operands of one dimension in two units), so a refusal in the base run only is accepted and counted like in the mixed families; failures seen only there are keyed :commensurable-slots",
+    "in every dyadic family a rounding-sized difference counts as held (counted, noted per function) when the two result leaves have different float widths: the coefficient / residue of a cancellation is applied as a float64 factor, so float32 data come back as float64 only in the run whose units do not cancel completely (precision and width of conversions are C17's subject); with equal widths bit-for-bit is required",
+    "the ordinary-unit mixed families (m**1.5 with cm**1.5, J*km with N*cm*m) are driven only for multiplicative templates (tag product, not the floor family): where operands of one dimension in two ordinary units are added or compared unyt must convert one of them by an inexact factor (1e-3, through float32 for 32-bit data), which makes comparisons, floor and remainder undecidable and is C17's subject; additive and comparing calls on mixed units are judged with the dyadic pool only",
+    "the binary ufuncs (add ... remainder, comparisons, arctan2; multiply/divide as controls) and the compositions reduce-then-combine, multiply/divide in the forms out=, .outer, 0-d operand, in-place operator with a quantity on the right, operator with both operands in one slot, and the compositions combine-then-reduce (np.mean(x/y) ...; divisors >= 1) are C07's own templates (vf/gen/c07_templates.py): fmod/remainder get divisors >= 1, comparisons small integers so that ties occur",
     "np.unique_values leaves the order of its result unspecified: compared as multisets",
-    "mechanism key = C07:<function>[(<minimal set of optional parameters whose forms fail> | options)]:<failure kind>:<result leaf | out-buffer | operand#k>[:<data type class when float data do not show it>][:mixed-units | :stale-units | :ordinary-units when only the mixed families / only the stale families / only ordinary units show it]; generic (no parenthesis) when the plain call form fails",
+    "mechanism key = C07:<function>[(<minimal set of optional parameters whose forms fail> | options)]:<failure kind>:<result leaf | out-buffer | operand#k>[:<data type class when float data do not show it>][:mixed-units | :commensurable-slots | :stale-units | :ordinary-units when only the mixed families / only the partial families / only the stale families / only ordinary units show it]; generic (no parenthesis) when the plain call form fails",
 )
 MIN_EVALS = 100000
 TIMEOUT = 3600
@@ -84,7 +96,7 @@ FAM_THOROUGH = FAM_QUICK + [
 # 'mixed' families: base run = operands of one slot written in two different units (first operand Lb, further ones La with
 # numbers x 2**12), variant run = all of them in Lb.  A refusal of the mixed call is accepted (and counted).
 FAM_MIXED_QUICK = [("dy-mixed", "dyadic", {"A": "Lb", "B": "Tb"}, {"A": ("La", 4096), "B": ("Ta", 4096)})]
-FAM_MIXED_THOROUGH = FAM_MIXED_QUICK + [("dy-mixed-up", "dyadic", {"A": "La", "B": "Ta"}, {"A": ("Lb", 1.0 / 4096), "B": ("Tb", 1.0 / 4096)})]
+FAM_MIXED_THOROUGH = list(FAM_MIXED_QUICK) + [("dy-mixed-up", "dyadic", {"A": "La", "B": "Ta"}, {"A": ("Lb", 1.0 / 4096), "B": ("Tb", 1.0 / 4096)})]
 # 'stale' families (history x combination): Unit objects are snapshots of the registry entry they were built from.  In the base
 # run the first operand of every slot carries the Unit built *before* the registry entry of its symbol was edited (modify, or
 # remove + add), every further operand of that slot the Unit built *after* it: same symbol, same registry object, another size
@@ -101,7 +113,66 @@ FAM_STALE_THOROUGH = FAM_STALE_QUICK + [
     ("dy-stale-compound", "dyadic", {"A": "Mb*Lb/Ta**2", "B": "1/Tb"}, "modify", 0, "first"),
     ("dy-stale-0d-array", "dyadic", {"A": "Lb", "B": "Tb"}, "modify", 0, "first"),
 ]
+# derived-unit aliases of the dyadic pool (one symbol for a compound dimension, like J and N): symbol -> (dimension, k), size 2**(12k)
+DERIVED = {"Ea": ("M L2 T-2", 0), "Eb": ("M L2 T-2", 1), "Fa": ("M L T-2", 0), "Fb": ("M L T-2", 1)}
+# units that cancel only partly.  unyt cancels commensurable factors of a product/quotient of units symbolically where it can
+# (Lb/La -> coefficient 4096) and leaves the rest as a scaled dimensionless residue (sqrt(Lb)/sqrt(La), Eb/(Fa*La)); with
+# fractional powers above 1 and with derived-unit aliases next to another mismatched factor *both* parts are non-trivial.
+# 'mixed' families with such slot units (operands of one slot written in two sizes of a fractional-power / alias compound):
+FAM_MIXED_QUICK += [
+    ("dy-mixed-pow1.5", "dyadic", {"A": "Lb**1.5", "B": "Tb**1.5"}, {"A": ("La**1.5", 2 ** 18), "B": ("Ta**1.5", 2 ** 18)}),
+    ("dy-mixed-alias", "dyadic", {"A": "Eb*Lb", "B": "Tb"}, {"A": ("Fa*La**2", 2 ** 24), "B": ("Ta", 4096)}),
+]
+FAM_MIXED_THOROUGH += FAM_MIXED_QUICK[1:] + [
+    ("dy-mixed-pow2.5", "dyadic", {"A": "Lb**2.5", "B": "Tb**2.5"}, {"A": ("La**2.5", 2 ** 30), "B": ("Ta**2.5", 2 ** 30)}),
+    ("dy-mixed-pow1.5-up", "dyadic", {"A": "La**1.5", "B": "Ta**1.5"}, {"A": ("Lb**1.5", 2.0 ** -18), "B": ("Tb**1.5", 2.0 ** -18)}),
+    ("dy-mixed-alias-3", "dyadic", {"A": "Eb*Lb", "B": "Tb"}, {"A": ("Fa*Ld*La", 2 ** 36), "B": ("Ta", 4096)}),
+    ("ord-mixed-pow1.5", "ordinary", {"A": "m**1.5", "B": "s"}, {"A": ("cm**1.5", 1000), "B": ("ms", 1000)}),
+    ("ord-mixed-pow2.5", "ordinary", {"A": "m**2.5", "B": "s"}, {"A": ("cm**2.5", 100000), "B": ("ms", 1000)}),
+    ("ord-mixed-alias", "ordinary", {"A": "J*km", "B": "s"}, {"A": ("N*cm*m", 100000), "B": ("ms", 1000)}),
+]
+# 'partial' families: slots A and B are *commensurable* (same dimension, different units of the class above), so that every
+# catalogue call combining an A with a B operand (products, quotients, contractions, solves, operators, in-place, out=, .outer,
+# combine-then-reduce compositions) meets a pair of units that cancels only partly; the variant run writes both slots in one
+# common unit (complete cancellation).  Driven only for calls in which both slots carry units.
+FAM_PARTIAL_QUICK = [
+    ("dy-partial-pow1.5", "dyadic", {"A": "Lb**1.5", "B": "La**1.5"}, {"A": "La**1.5", "B": "La**1.5"}),
+    ("dy-partial-alias", "dyadic", {"A": "Eb*Lb", "B": "Fa*La**2"}, {"A": "Fa*La**2", "B": "Fa*La**2"}),
+]
+FAM_PARTIAL_THOROUGH = FAM_PARTIAL_QUICK + [
+    ("dy-partial-pow2.5", "dyadic", {"A": "Lb**2.5", "B": "La**2.5"}, {"A": "La**2.5", "B": "La**2.5"}),
+    ("dy-partial-pow1.5-rev", "dyadic", {"A": "La**1.5", "B": "Lb**1.5"}, {"A": "La**1.5", "B": "La**1.5"}),      # the divisor is the larger unit
+    ("dy-partial-pow1.5-down", "dyadic", {"A": "Lb**1.5", "B": "La**1.5"}, {"A": "Ld**1.5", "B": "Ld**1.5"}),    # both re-expressed
+    ("dy-partial-pow1.5-up", "dyadic", {"A": "Lb**1.5", "B": "La**1.5"}, {"A": "Lb**1.5", "B": "Lb**1.5"}),      # numbers shrink (floats only)
+    ("dy-partial-compound", "dyadic", {"A": "Mb*Lb**1.5/Tb", "B": "Ma*La**1.5/Tb"}, {"A": "Ma*La**1.5/Tb", "B": "Ma*La**1.5/Tb"}),
+    ("dy-partial-alias-3", "dyadic", {"A": "Eb*Lb", "B": "Fa*Ld*La"}, {"A": "Fa*Ld*La", "B": "Fa*Ld*La"}),
+    ("dy-partial-pow1.5-0d-array", "dyadic", {"A": "Lb**1.5", "B": "La**1.5"}, {"A": "La**1.5", "B": "La**1.5"}),
+    ("ord-partial-pow1.5", "ordinary", {"A": "m**1.5", "B": "cm**1.5"}, {"A": "cm**1.5", "B": "cm**1.5"}),
+    ("ord-partial-pow2.5", "ordinary", {"A": "m**2.5", "B": "cm**2.5"}, {"A": "cm**2.5", "B": "cm**2.5"}),
+    ("ord-partial-alias", "ordinary", {"A": "J*km", "B": "N*cm*m"}, {"A": "N*cm*m", "B": "N*cm*m"}),
+]
+PLAIN_MIXED = ("dy-mixed", "dy-mixed-up")        # the mixed families with plain first-power slot units
+WHATS = ("ufunc", "op", "composition", "function", "method")
 LAYOUT_DRAW = ("C", "C", "C", "F", "strided", "reversed", "T")
+
+
+def _what(t):
+    """kind of catalogue entry, for the per-class counters of the history / combination families"""
+    if t.func_name.startswith("c07."):
+        return "composition"
+    if t.func_name.startswith("numpy.") and isinstance(t.target, np.ufunc):
+        return "ufunc"
+    return t.kind if t.kind in WHATS else "method"
+
+
+def own_registry(unyt):
+    """the dyadic registry of this check: the atoms of TABLE plus the derived-unit aliases"""
+    from unyt import dimensions as ud
+    reg = dyadic.registry(unyt, TABLE)
+    dims = {"M L2 T-2": ud.energy, "M L T-2": ud.force}
+    for name, (spec, k) in DERIVED.items():
+        reg.add(name, 2.0 ** (dyadic.STEP * k), dims[spec])
+    return reg
 
 
 def batches(tier, seed):
@@ -117,7 +188,16 @@ def batches(tier, seed):
 
 
 # ------------------------------------------------------------------------------------------------ reference scales
-_DY_RES = dyadic.resolver(TABLE)
+_DY_ATOMS = dyadic.resolver(TABLE)
+
+
+def _DY_RES(tok):
+    if tok in DERIVED:
+        spec, k = DERIVED[tok]
+        return 2.0 ** (dyadic.STEP * k), rdims.D(spec)
+    return _DY_ATOMS(tok)
+
+
 _SCALE_CACHE = {}
 
 
@@ -546,7 +626,7 @@ def worker(batch, rec):
     fams = FAM_QUICK if quick else FAM_THOROUGH
     dtypes = ("f8", "i8", "c16", "f4") if quick else ("f8", "i8", "c16", "f4", "i4", "c8")
     draws = [("int", 0), ("frac", 1), ("gen", 2), ("zero", 3)] if quick else [(("int", "frac", "gen")[i % 3], i) for i in range(18)] + [("zero", 18)]
-    reg = dyadic.registry(unyt, TABLE)
+    reg = own_registry(unyt)
     wraps = {}
     for name, kind, base, var in fams:
         r = reg if kind == "dyadic" else None
@@ -554,7 +634,17 @@ def worker(batch, rec):
         zd = "array" if name.endswith("0d-array") else "quantity"
         wraps[name] = (kind, make_wrap(unyt, r, base, {}, zd), make_wrap(unyt, r, var, fac, zd), base)
     for name, kind, base, alt in (FAM_MIXED_QUICK if quick else FAM_MIXED_THOROUGH):
-        wraps[name] = (kind, make_mixed_wrap(unyt, reg, base, alt), make_wrap(unyt, reg, base, {}), base)
+        r = reg if kind == "dyadic" else None
+        for slot, (u_alt, f) in alt.items():      # the declared factor must be what the reference scales say
+            if family_factors(kind, {slot: base[slot]}, {slot: u_alt})[slot] != f:
+                raise AssertionError(f"{name}: numbers of a {slot} operand written in {u_alt} instead of {base[slot]} are not x{f}")
+        wraps[name] = (kind, make_mixed_wrap(unyt, r, base, alt), make_wrap(unyt, r, base, {}), base)
+    for name, kind, base, var in (FAM_PARTIAL_QUICK if quick else FAM_PARTIAL_THOROUGH):
+        r = reg if kind == "dyadic" else None
+        if ref_unit(base["A"], kind)[1] != ref_unit(base["B"], kind)[1] or ref_unit(base["A"], kind)[0] == ref_unit(base["B"], kind)[0]:
+            raise AssertionError(f"{name}: slots must be commensurable and of different size")
+        zd = "array" if name.endswith("0d-array") else "quantity"
+        wraps[name] = (kind, make_wrap(unyt, r, base, {}, zd), make_wrap(unyt, r, var, family_factors(kind, base, var), zd), base)
     for name, kind, base, how, new_k, stale in (FAM_STALE_QUICK if quick else FAM_STALE_THOROUGH):
         zd = "array" if name.endswith("0d-array") else "quantity"
         try:
@@ -609,13 +699,19 @@ def run_template(t, rec, seed, dtypes, draws, wraps, fails):
                 for fam, (kind, w1, w2, base) in wraps.items():
                     if kind == "ordinary" and flavor == "gen":
                         continue
+                    if "-partial" in fam and not {"A", "B"} <= slots:
+                        continue        # no operand pair whose units cancel partly
+                    if fam.startswith("ord-mixed") and not ("product" in t.tags and t.func_name not in meta.FLOOR_FAMILY):
+                        continue        # additive / comparing calls convert one operand inexactly inside unyt: not decidable with a tolerance
                     judge_case(t, call, layout, shape, dt, fam, kind, w1, w2, base, slots, rec, fails, skip1, skip2)
 
 
 def judge_case(t, call, layout, shape, dt, fam, kind, w1, w2, base, slots, rec, fails, skip1, skip2):
     tags = t.tags
     stale = fam.startswith("dy-stale")
-    mixed = fam.startswith("dy-mixed") or stale          # both: one slot written in two units in the base run
+    mixed = "-mixed" in fam or stale          # both: one slot written in two units in the base run
+    partial = "-partial" in fam               # slots A and B commensurable, in units that cancel only partly
+    compound_mixed = mixed and not stale and fam not in PLAIN_MIXED      # mixed family with fractional-power / alias slot units
     mtag = "stale-units" if stale else "mixed-units"
     if stale:
         per_slot = {}
@@ -635,11 +731,20 @@ def judge_case(t, call, layout, shape, dt, fam, kind, w1, w2, base, slots, rec, 
         if stale:
             rec.reach("stale-refused:" + t.func_name)
         return
+    if partial and o1[0] == "exc" and o2[0] == "ok":
+        # the base run of a partial family is a mixed-unit call too (operands of one dimension in two units): a refusal is accepted
+        rec.count("partial-units-refused")
+        rec.note(f"partial-units-refused:{t.func_name}:{type(o1[1]).__name__}")
+        return
     if mixed and t.func_name in ("numpy.array_equal", "numpy.array_equiv"):
         rec.count(mtag + "-not-judged:equal-units-required-by-definition")     # C19: these also require equal units
         return
     if mixed:
         rec.count(mtag + "-pairs-run")
+    if compound_mixed:
+        rec.count("compound-mixed-units-pairs-run:" + _what(t))
+    if partial:
+        rec.count("partial-units-pairs-run:" + _what(t))
     if stale:
         rec.reach("stale-cmp:" + t.func_name)
         rec.count("stale-units-pairs-run:" + ("ufunc" if t.func_name.startswith("numpy.") and isinstance(t.target, np.ufunc) else
@@ -652,7 +757,7 @@ def judge_case(t, call, layout, shape, dt, fam, kind, w1, w2, base, slots, rec, 
         if "unsupported" in tags:          # the mechanism is that the declared-unsupported function ran at all, not the leaf
             where = where.split("[")[0]
         fails.setdefault((fkind, where), []).append({
-            "base": t.form == "base", "names": form_names(t, call), "dt": dt_class(dt), "ukind": "dyadic-stale" if stale else "dyadic-mixed" if mixed else kind,
+            "base": t.form == "base", "names": form_names(t, call), "dt": dt_class(dt), "ukind": "dyadic-stale" if stale else "dyadic-mixed" if mixed else "dyadic-partial" if partial else kind,
             "desc": f"{t.tid} [{shape},{dt},{fam}] {where}: {detail}",
             "case": {"template": t.tid, "shape": shape, "dtype": dt, "family": fam, "args": call.args, "kwargs": call.kwargs,
                      "where": where, "detail": detail}})
@@ -772,6 +877,10 @@ def judge_case(t, call, layout, shape, dt, fam, kind, w1, w2, base, slots, rec, 
             rec.count(f"rule1-{leaf_kind(x)}-leaves:{kind}")
             if stale:
                 rec.count(f"stale-units-{leaf_kind(x)}-leaves-compared")
+            if compound_mixed:
+                rec.count(f"compound-mixed-units-{leaf_kind(x)}-leaves-compared")
+            if partial:
+                rec.count(f"partial-units-{leaf_kind(x)}-leaves-compared")
             continue
         if d[0] == "discard":
             rec.count("discarded:" + d[1].split(":")[0])
@@ -797,6 +906,14 @@ def judge_case(t, call, layout, shape, dt, fam, kind, w1, w2, base, slots, rec, 
             # unyt has to convert the operand written in the other unit: the result may come back in another float width
             # (float32 data, float64 conversion) - a rounding-sized difference is C17's subject, not a covariance failure
             rec.count(mtag + "-held-within-rounding")
+            rec.count(f"rule1-{sub}-leaves-compared")
+            continue
+        if d[0] == "not-bit-exact" and np.asarray(x).dtype.itemsize != np.asarray(y).dtype.itemsize:
+            # the coefficient / residue of a (partial) cancellation is applied as a float64 factor: float32 data come back wider in
+            # the run whose units do not cancel completely; a rounding-sized difference between results of different float width
+            # is C17's subject
+            rec.count("rule1-held-within-rounding:float-width-of-the-result-differs")
+            rec.note("float-width-of-the-result-depends-on-units:" + t.func_name)
             rec.count(f"rule1-{sub}-leaves-compared")
             continue
         if np.dtype(dt).kind in "iu" and _integer_artifact(t, call, layout, w1, w2):
@@ -920,7 +1037,8 @@ def emit(fname, fails, rec):
             dcs = {e["dt"] for e in es}
             dq = "" if "float" in dcs else (":" + sorted(dcs)[0] if len(dcs) == 1 else ":non-float")
             uks = {e["ukind"] for e in es}
-            uq = "" if "dyadic" in uks else ":mixed-units" if "dyadic-mixed" in uks else ":stale-units" if "dyadic-stale" in uks else ":ordinary-units"
+            uq = ("" if "dyadic" in uks else ":mixed-units" if "dyadic-mixed" in uks else ":commensurable-slots" if "dyadic-partial" in uks
+                  else ":stale-units" if "dyadic-stale" in uks else ":ordinary-units")
             key = f"C07:{fname}{fq}:{fkind}:{where}{dq}{uq}"
             for e in sorted(es, key=lambda e: (not e["base"], e["dt"] != "float", ",f8," not in e["desc"], e["desc"])):
                 rec.violation(key, e["desc"], e["case"])
@@ -952,6 +1070,12 @@ def extra(tier, seed, results):
         deciding[f"pairs of runs with an operand carrying a stale snapshot of the other operand's unit (stale families), {what}"] = counters.get("stale-units-pairs-run:" + what, 0)
     deciding["stale families, unit-carrying leaves compared by the scale their own Unit object carries"] = counters.get("stale-units-unit-leaves-compared", 0)
     deciding["stale families, bare leaves compared"] = counters.get("stale-units-bare-leaves-compared", 0)
+    for what in WHATS:
+        deciding[f"pairs of runs with one slot written in two sizes of a fractional-power / alias compound unit (compound mixed families), {what}"] = counters.get("compound-mixed-units-pairs-run:" + what, 0)
+        deciding[f"pairs of runs with commensurable slots in units that cancel only partly (partial families), {what}"] = counters.get("partial-units-pairs-run:" + what, 0)
+    for fk in ("compound-mixed", "partial"):
+        for lk in ("unit", "bare"):
+            deciding[f"{fk} families, {lk} leaves compared"] = counters.get(f"{fk}-units-{lk}-leaves-compared", 0)
     if tier != "quick":
         deciding["rule 1, unit-carrying leaves compared within tolerance (ordinary units)"] = counters.get("rule1-unit-leaves:ordinary", 0)
     ok_batches = [r for _, r in results if r.get("status") == "ok"]
